@@ -21,12 +21,15 @@ PATHS = ['/', '/a', '/a/', '/a//', '/a/1', '/a/b', '/a/b/', '/a/x/c', '/b', '/b/
 REQ_METHODS = ['GET', 'GET', 'HEAD', 'POST', 'PUT', 'get', 'FOO', 'DELETE', 'post']
 METHOD_SETS = [None, None, ['GET'], ['POST'], ['get', 'put'], ['POST', 'DELETE'], ['HEAD'], [], ['GET', 'POST']]
 BEHAVIOURS = ['ok', 'ok', 'ok', 'ctx', 'nonresp', 'none', 'raise404nb', 'ret403nb', 'raise409', 'ret503',
-              'raise500nb', 'boom', 'weird', 'reroute', 'ret404nb']
+              'raise500nb', 'boom', 'weird', 'reroute', 'ret404nb', 'ret503_rendered', 'ret403nb_rendered']
 OUT = {'ok': ['resp', 'ok'], 'ctx': ['resp', 'ok'], 'nonresp': 'nonresp', 'none': 'nonresp',
        'raise404nb': ['http', 404, False], 'ret404nb': ['http', 404, False], 'ret403nb': ['http', 403, False],
        'raise409': ['http', 409, True], 'ret503': ['http', 503, True], 'raise500nb': ['http', 500, False],
-       'boom': ['raise', 'ValueError'], 'weird': ['raise', 'RuntimeError'], 'reroute': 'reroute'}
+       'boom': ['raise', 'ValueError'], 'weird': ['raise', 'RuntimeError'], 'reroute': 'reroute',
+       # an HTTPException RETURNED by the endpoint of a route that has a render function: its own status, not a rendering of it
+       'ret503_rendered': ['http', 503, True], 'ret403nb_rendered': ['http', 403, False]}
 HANDLERS = {'default': ('default', 'adapt'), 'reraise': ('reraise', 'adapt'), 'contextual': ('default', 'adapt'),
+            'broken_classattr': ('default', 'raises'),
             'broken': ('default', 'raises'), 'other': ('default', ['other', 'APPOTHER']),
             'contextual_reraise': ('default', 'adapt')}
 ACCEPTS = [None, 'text/html', 'application/json', '*/*', 'application/xml;q=0.9, text/plain', 'image/png', 'garbage;;q=x']
@@ -53,7 +56,7 @@ def build(case):
         handler = tagged(E.ContextualErrorHandler)()
     elif hk == 'contextual_reraise':
         handler = tagged(E.ContextualErrorHandler)(reraise_uncaught=True)   # O15: ignores the flag
-    elif hk == 'broken':
+    elif hk in ('broken', 'broken_classattr'):
         class Broken(E.ErrorHandler):
             def render_error(self, request, _error):
                 raise RuntimeError('render_error is broken')
@@ -94,6 +97,10 @@ def build(case):
             return f, None
         if beh == 'ret503':
             return (lambda: E.ServiceUnavailable()), None
+        if beh == 'ret503_rendered':
+            return (lambda: E.ServiceUnavailable()), (lambda context: Response('ok', headers=hdr))
+        if beh == 'ret403nb_rendered':
+            return (lambda: E.Forbidden(is_breaking=False)), (lambda context: Response('ok', headers=hdr))
         if beh == 'raise500nb':
             def f():
                 raise E.InternalServerError(is_breaking=False)
@@ -150,6 +157,11 @@ def build(case):
         if r.get('route_mode'):
             kw['inherit_slashes'] = False
         return kw
+    if hk == 'broken_classattr':
+        # the handler is installed through the documented class attribute instead of the constructor argument
+        class Application(Application):
+            default_error_handler_type = type(handler)
+        handler = None
     if case.get('build'):
         app = Application([], error_handler=handler, slash_mode=case['app_mode'])
         for k, idx in case['build']:
@@ -369,7 +381,7 @@ def gen_case(rng, tier, exhaustive=None):
                        'beh': rng.choice(BEHAVIOURS), 'own_rerr': own,
                        'route_mode': rng.choice([None, None, None, 'strict', 'redirect', 'rewrite'])})
     case = {'lab': 'dispatch', 'app_mode': rng.choice(['redirect', 'redirect', 'strict', 'rewrite']),
-            'handler': rng.choice(['default', 'default', 'reraise', 'contextual', 'broken', 'other', 'contextual_reraise']),
+            'handler': rng.choice(['default', 'default', 'reraise', 'contextual', 'broken', 'broken_classattr', 'other', 'contextual_reraise']),
             'routes': routes, 'build': None}
     if rng.random() < 0.5:
         ks = list(range(n))
